@@ -48,6 +48,10 @@ pub struct SrvCfg {
     pub write_buf: u32,
     /// fire the graceful-shutdown signal at this virtual time
     pub shutdown_signal_ms: Option<u32>,
+    /// fire the graceful-shutdown signal just before the peer releases the segment starting at this
+    /// input offset, in the same scheduler turn (the connection sees signal and bytes in one poll)
+    #[serde(default)]
+    pub shutdown_signal_at_input: Option<u32>,
     pub expect_delay_ms: u16,
     pub expect_reject: bool,
     /// delay (virtual ms) between service construction and connection accept; lets the cached
@@ -64,6 +68,7 @@ impl Default for SrvCfg {
             half_closed: true,
             write_buf: 32768,
             shutdown_signal_ms: None,
+            shutdown_signal_at_input: None,
             expect_delay_ms: 0,
             expect_reject: false,
             accept_delay_ms: 0,
@@ -970,7 +975,7 @@ async fn run_inner(sc: Scenario) -> Outcome {
         .client_disconnect_timeout(Duration::from_millis(cfg.disc_timeout_ms as u64))
         .h1_allow_half_closed(cfg.half_closed)
         .h1_write_buffer_size(cfg.write_buf.max(1) as usize);
-    if cfg.shutdown_signal_ms.is_some() {
+    if cfg.shutdown_signal_ms.is_some() || cfg.shutdown_signal_at_input.is_some() {
         let rx = sig_rx.clone();
         builder = builder.graceful_shutdown_signal(move || {
             let mut rx = rx.clone();
@@ -1054,6 +1059,13 @@ async fn run_inner(sc: Scenario) -> Outcome {
         *pd.borrow_mut() = Some(ppeer.now_ms());
     });
     let wtask = tokio::task::spawn_local(simnet::run_wscript(peer.clone(), w_ops));
+    let sig_tx = Rc::new(sig_tx);
+    if let Some(off) = cfg.shutdown_signal_at_input {
+        let tx = sig_tx.clone();
+        peer.0.borrow_mut().send_hook = Some((off as usize, simnet::Hook(Box::new(move || {
+            let _ = tx.send(true);
+        }))));
+    }
     let sig_task = cfg.shutdown_signal_ms.map(|ms| {
         tokio::task::spawn_local(async move {
             tokio::time::sleep(Duration::from_millis(ms as u64)).await;
